@@ -47,9 +47,20 @@ theorem C{n}_{suf}_readable {binders} :
 """
     return out
 
+ORACLE = """
+/-- the oracle that judges traces recorded from the real crate IS the monitor of these theorems: on every model execution the
+machine-free monitor `monRun` (Mon.lean), folded over the boundary trace alone, computes exactly the ghost carried by the configuration
+(`Inv/MonSound.lean`: `monRun_sound`), so `SafeFor %(p)d` can be read off the trace -/
+theorem C%(n)s_oracle_is_the_monitor {St Loc α β : Type} (M : Machine St Loc α β) :
+    ∀ s, SReach M s →
+      (SafeFor %(p)d s ↔ (∀ v ∈ (monRun M.shape s.tr.reverse).g.viols, v.prop ≠ %(p)d) ∧
+        (%(p)d = 17 → (monRun M.shape s.tr.reverse).panicked = false)) :=
+  safeFor_iff_monRun M %(p)d
+"""
+
 def extra_theorems(n):
     p = int(n)
-    full = readable_theorems(n)
+    full = readable_theorems(n) + (ORACLE % dict(n=n, p=p))
     if n in ("01", "17"):
         full = f"""
 /-- `share`, EVERY conformant environment (nested fan-out included): the only phase-level violations share can commit are deliveries
@@ -71,4 +82,4 @@ theorem C{n}_share_partial {{α : Type}} :
     ∀ s, SReachR (Share.machine α) noNestedFanout s → SafeFor {p} s :=
   fun s hs => safeFor_of_basicSafe _ s hs.weaken (Share.share_basicSafe_partial s hs) {p} (by decide)
 """
-OPS_IMPORT_EXTRA = ["Combine", "Share", "ShareWeak", "Readable"]
+OPS_IMPORT_EXTRA = ["Combine", "Share", "ShareWeak", "Readable", "MonSound"]
